@@ -1,7 +1,7 @@
 """C09 — tree equality means same meaning-bearing content; clone_item preserves it."""
 import copy
 
-from .. import common, gen
+from .. import common, gen, trees
 
 LEVEL = "proof"
 EXTRA_LEAN_MODULES = ["Luqum.Props.GenClone", "Luqum.Props.GenPrint"]   # clone_item and __str__ translated from the source (tools/pysym.py)
@@ -76,45 +76,6 @@ def exotic_pairs(ctx, rng):
                      "types and content: %s" % (e1, e2, fp(a) == fp(b)), {"a": repr(fp(a)), "b": repr(fp(b))})
 
 
-def edit_in_place(rng, d, t):
-    """edit the loaded tree `t` (whose dump is `d`) IN PLACE at a node below the root, the way the quick start's
-    "manipulating" section does: another value for a term, or the children of an inner node in another order.
-    Returns the dump the tree must now be equal to, or None. Equality is a function of the CURRENT content:
-    whatever a tree was compared with before must not matter (seeded C09-E: a memoised hash, dropped only when
-    the node itself is assigned to)"""
-    import copy
-    nodes = [(p, n) for p, n in common.tree_nodes(d) if p]
-    terms = [(p, n) for p, n in nodes if n["c"] in ("Word", "Phrase")]
-    inner = [(p, n) for p, n in nodes if len(n["ch"]) >= 2 and n["c"].endswith("Operation")]
-    if not terms and not inner:
-        return None
-    d2 = copy.deepcopy(d)
-
-    def at_json(x, p):
-        for i in p:
-            x = x["ch"][i]
-        return x
-
-    def at_obj(x, p):
-        for i in p:
-            x = x.children[i]
-        return x
-    if terms and (not inner or rng.random() < 0.7):
-        p, n = rng.choice(terms)
-        v = rng.choice(["edited", "bar", "x"]) if n["c"] == "Word" else rng.choice(['"edited"', '"a b"'])
-        at_json(d2, p)["v"] = v
-        at_obj(t, p).value = v
-    else:
-        p, n = rng.choice(inner)
-        order = list(range(len(n["ch"])))
-        rng.shuffle(order)
-        at_json(d2, p)["ch"] = [at_json(d2, p)["ch"][i] for i in order]
-        node = at_obj(t, p)
-        kids = list(node.children)
-        node.children = [kids[i] for i in order]
-    return d2
-
-
 def run(ctx):
     I = common.impl()
     rng = ctx.rng
@@ -173,7 +134,7 @@ def run(ctx):
             ctx.fail("__eq__ is not reflexive", {"a": a})
         # compare - edit in place - compare again
         if rng.random() < 0.35:
-            b2 = edit_in_place(rng, b, tb)
+            b2 = trees.edit_in_place(rng, b, tb)
             if b2 is not None:
                 ctx.count("compare, edit in place, compare again")
                 fresh = common.load_tree(b2)
